@@ -734,7 +734,7 @@ pub fn bytes_strategy(_tier: Tier) -> BoxedStrategy<Case> {
 pub fn property() -> Property {
     Property {
         id: "C02",
-        rule: "operation histories (<=40 ops quick / <=160 thorough) over StableGraph<_,_,Directed|Undirected,u8|u16|u32|usize>, run under both build profiles (debug assertions on / off): add/try_add/update/try_update (valid, vacant, out-of-range endpoints, at the u8 limit), Build trait paths, remove_node/remove_edge (live, vacant, out of range), bursts of removals, retain_* with mutating closures, reverse, clear, clear_edges, extend_with_edges naming vacant and beyond-bound indices, weight writes, map, filter_map, clone/clone_from, Graph round trips; after every step the complete observation (every query, iterator, walker, contains_node, bounds, index maps) is compared with a slot model in which an insertion may take any non-live index; a failing call must leave the observation unchanged; any panic on a valid call is a violation; non-trivial = a failed try_*, reverse, clear_edges or extend executed while >= 2 vacancies exist, followed by a later insertion; distinct by fingerprint of the op sequence",
+        rule: "operation histories (<=40 ops quick / <=160 thorough) over StableGraph<_,_,Directed|Undirected,u8|u16|u32|usize>, run under both build profiles (debug assertions on / off): add/try_add/update/try_update (valid, vacant, out-of-range endpoints, at the u8 limit), Build trait paths, remove_node/remove_edge (live, vacant, out of range), bursts of removals, retain_* with mutating closures, reverse, clear, clear_edges, extend_with_edges naming vacant and beyond-bound indices, weight writes, map, filter_map, clone/clone_from, Graph round trips; after every step the complete observation (every query, iterator, walker, contains_node, bounds, index maps) is compared with a slot model in which an insertion may take any non-live index; a failing call must leave the observation unchanged; any panic on a valid call is a violation; non-trivial = a failed try_*, reverse, clear_edges or extend executed while >= 2 vacancies exist, followed by a later insertion; distinct by fingerprint of the op sequence; the *-from-bytes sub-checks feed the same interpreter with histories decoded from generated byte strings by the libFuzzer codec (all operation kinds equally likely, up to the thorough-tier length)",
         assumptions: &[
             "node_bound/edge_bound are only documented as upper bounds: asserted to lie between last live index + 1 and the number of indices handed out",
             "neighbour order of a StableGraph is not documented: lists compared as multisets",
